@@ -49,6 +49,9 @@ type Plan struct {
 	MaxChunks int   `json:"maxchunks"`
 	SweepMax  int   `json:"sweepmax"`
 	Fillers   []Vec `json:"fillers"`
+	// Bounds are the buffer sizes of golang.org/x/text/transform that a kernel is swept across as well (the 4096
+	// byte source and destination buffers of transform.Reader / transform.Writer).
+	Bounds []int `json:"bounds"`
 }
 
 // Case is one concrete run: input = filler^pre . in . filler^post.
@@ -60,7 +63,7 @@ type Case struct {
 	FillerExp []int  `json:"fillerexp"`
 	Pre       int    `json:"pre"`
 	Post      int    `json:"post"`
-	Iface     string `json:"iface"` // string | bytes | span | reader | writer | stream
+	Iface     string `json:"iface"` // string | bytes | span | reader | writer | stream | append
 	Cap       int    `json:"cap"`
 	Cuts      []int  `json:"cuts"` // byte offsets where the input is cut into chunks
 }
@@ -365,6 +368,21 @@ func runIface(c *Case, src []byte, rec *recorder) (out []byte, note string) {
 		return buf.Bytes(), ""
 	case "stream":
 		return stream(t, src, c.Cap, c.Cuts)
+	case "append":
+		// transform.Append into a slice with c.Cap bytes of spare capacity (it grows the slice when that runs out)
+		keep := []byte("kept:")
+		dst := make([]byte, len(keep), len(keep)+c.Cap)
+		copy(dst, keep)
+		res, n, err := transform.Append(t, dst, src)
+		if err != nil {
+			note = "transform.Append: " + err.Error()
+		} else if n != len(src) {
+			note = fmt.Sprintf("transform.Append: consumed %d of %d bytes without error", n, len(src))
+		}
+		if !bytes.HasPrefix(res, keep) {
+			return res, "transform.Append: the bytes already in dst were changed"
+		}
+		return res[len(keep):], note
 	}
 	return nil, "unknown interface " + c.Iface
 }
@@ -528,6 +546,7 @@ func casesOf(v *Vec, emit func(Case)) {
 		}
 		mk("reader", 1, []int{})
 		for _, cp := range plan.Caps {
+			mk("append", cp, []int{})
 			for _, cuts := range cs {
 				mk("stream", cp, cuts)
 			}
@@ -535,8 +554,30 @@ func casesOf(v *Vec, emit func(Case)) {
 	}
 }
 
+// boundaryPres: the numbers of filler units in front of a kernel for which the kernel's input offset or the offset
+// of its output lies within a few bytes of the buffer size b.
+func boundaryPres(lenIn, lenOut, b int) []int {
+	seen := map[int]bool{}
+	var res []int
+	for _, l := range []int{lenIn, lenOut} {
+		if l == 0 {
+			continue
+		}
+		for off := b - 6; off <= b+3; off++ {
+			if pre := off / l; off%l == 0 && !seen[pre] {
+				seen[pre] = true
+				res = append(res, pre)
+			}
+		}
+	}
+	sort.Ints(res)
+	return res
+}
+
 // sweepCases places kernel k after pre filler units, for the interfaces whose buffers the
-// position matters to.
+// position matters to: at every offset 0..SweepMax units (step), and where the kernel's input or
+// output offset crosses one of the buffer sizes of plan.Bounds.  In each position the destination
+// sizes that end exactly in front of the kernel's output (and 1, 2 bytes further) are offered too.
 func sweepCases(k *Vec, step int, emit func(Case)) {
 	for _, f := range plan.Fillers {
 		for _, dir := range []string{"esc", "unesc"} {
@@ -544,24 +585,50 @@ func sweepCases(k *Vec, step int, emit func(Case)) {
 			if dir == "unesc" {
 				exp, fexp = k.Unesc, f.Unesc
 			}
+			at1 := func(pre, post int, far bool) {
+				base := Case{Dir: dir, In: k.In, Exp: exp, Filler: f.In, FillerExp: fexp, Pre: pre, Post: post, Cuts: []int{}}
+				mk := func(iface string, cp int, cuts []int) {
+					c := base
+					c.Iface, c.Cap, c.Cuts = iface, cp, cuts
+					emit(c)
+				}
+				mk("string", 0, []int{})
+				mk("bytes", 0, []int{})
+				mk("writer", 0, []int{})
+				mk("reader", 64, []int{})
+				at := pre * len(f.In)
+				mk("writer", 0, []int{at + 1})
+				mk("reader", 64, []int{at + 1})
+				if far {
+					mk("reader", 8192, []int{})
+				}
+				if post == 0 || far {
+					if !far {
+						mk("stream", 3, []int{})
+					}
+					mk("stream", bigCap, []int{at})
+					// the destination ends exactly in front of the kernel's output, or 1 / 2 bytes into it
+					out := pre * len(fexp)
+					for d := 0; d <= 2; d++ {
+						mk("append", out+d, []int{})
+						if out+d > 0 {
+							mk("stream", out+d, []int{})
+						}
+					}
+				}
+			}
 			for pre := 0; pre <= plan.SweepMax; pre += step {
 				for _, post := range []int{0, 1, 3} {
-					base := Case{Dir: dir, In: k.In, Exp: exp, Filler: f.In, FillerExp: fexp, Pre: pre, Post: post, Cuts: []int{}}
-					mk := func(iface string, cp int, cuts []int) {
-						c := base
-						c.Iface, c.Cap, c.Cuts = iface, cp, cuts
-						emit(c)
+					at1(pre, post, false)
+				}
+			}
+			for _, b := range plan.Bounds {
+				for _, pre := range boundaryPres(len(f.In), len(fexp), b) {
+					if pre <= plan.SweepMax {
+						continue
 					}
-					mk("string", 0, []int{})
-					mk("bytes", 0, []int{})
-					mk("writer", 0, []int{})
-					mk("reader", 64, []int{})
-					at := pre * len(f.In)
-					mk("writer", 0, []int{at + 1})
-					mk("reader", 64, []int{at + 1})
-					if post == 0 {
-						mk("stream", 3, []int{})
-						mk("stream", bigCap, []int{at})
+					for _, post := range []int{0, 1, 3} {
+						at1(pre, post, true)
 					}
 				}
 			}
@@ -690,10 +757,11 @@ func main() {
 				fn := func(c Case) {
 					ord++
 					ev := every
+					long := it.sweep && (c.Iface == "stream" || c.Pre > plan.SweepMax)
 					if it.sweep {
 						ev = sweepEvery
-						if c.Iface == "stream" {
-							ev = 0 // hundreds of calls per trace: compared by output only
+						if long {
+							ev = 0 // hundreds of calls per trace / inputs of 4 KB and more: compared by output only
 						}
 					}
 					wantTrace := hashPick(seed, it.idx, ord, ev)
@@ -704,7 +772,7 @@ func main() {
 						r.nmm++
 						r.kinds[mm.Kind]++
 						first := r.kinds[mm.Kind] == 1
-						if first && evs == nil && maxMMTraces > 0 && (!it.sweep || cc.Iface != "stream") {
+						if first && evs == nil && maxMMTraces > 0 && !long {
 							// the first mismatch of each kind per vector is recorded call by call
 							_, evs = evaluate(&cc, sl, true, false)
 						}
